@@ -83,6 +83,29 @@ def roundtrip_case(p: list, indent: int, ctx: str) -> dict:
     return {"ok": True, "back": back, "text": text}
 
 
+def dmode_case(n: int, form: str) -> dict:
+    """a dungeon-mode number where the ExplorerScript decompiler prints it (assignment, case header): decompile, compile"""
+    from core import impl_compile, impl_decompile
+
+    if form == "assign":
+        ops = [[{"off": 0, "code": "flag_SetDungeonMode", "params": [["i", 7], ["i", n]]}, {"off": 1, "code": "Return", "params": []}]]
+        pick = lambda o: o[0][0]["params"][1]  # noqa: E731
+    else:
+        ops = [[{"off": 0, "code": "SwitchDungeonMode", "params": [["i", 7]]}, {"off": 1, "code": "Case", "params": [["i", n], ["i", 3]]},
+                {"off": 2, "code": "Jump", "params": [["i", 4]]}, {"off": 3, "code": "a", "params": []}, {"off": 4, "code": "End", "params": []}]]
+        pick = lambda o: o[0][1]["params"][0]  # noqa: E731
+    d = impl_decompile(ops, [{"type": "GENERIC", "linked_to": 0, "linked_to_name": None}], [None])
+    if not d["ok"]:
+        return {"ok": False, "stage": "decompile", "err": d["err"]}
+    c = impl_compile(d["text"])
+    if not c["ok"]:
+        return {"ok": False, "stage": "compile", "err": c["err"], "text": d["text"]}
+    try:
+        return {"ok": True, "back": pick(c["ops"]), "text": d["text"]}
+    except Exception:  # noqa
+        return {"ok": False, "stage": "shape", "err": "shape", "text": d["text"]}
+
+
 def spelling_case(kind: str, tok: str) -> dict:
     from core import impl_compile, impl_ssbs_compile
 
@@ -193,6 +216,18 @@ def main() -> None:
         for ctx in ("arg", "arg_ssbs"):
             tasks.append(("checks.c04:roundtrip_case", p, 1, ctx))
             meta.append((p, 1, ctx, None))
+    # dungeon-mode numbers where the decompiler prints them: 0..3 may come back as the configured constant that
+    # stands for that number - for that number, not for another one
+    from core import DM_CONSTS
+    dm = [(n, form) for n in (0, 1, 2, 3, 4, 7, -1) for form in ("assign", "case")]
+    for (n, form), out in zip(dm, run_impl([("checks.c04:dmode_case", n, form) for n, form in dm])):
+        run.case(["dmode", n, form], nontrivial=True)
+        allowed = [["i", n]] + ([["c", DM_CONSTS[n]]] if 0 <= n <= 3 else [])
+        good = out.get("ok") and out["back"] in allowed
+        run.count("dungeon-mode:" + ("ok" if good else "FAIL"))
+        if not good:
+            run.fail(f"dungeon-mode:{form}", f"dungeon mode {n} printed in a {form} comes back as {out.get('back')!r} "
+                     f"(allowed: {allowed})", {"number": n, "form": form, "observed": out})
     res = run_impl(tasks)
     for (p, indent, ctx, s), out in zip(meta, res):
         run.case([p, indent, ctx], nontrivial=True)
